@@ -1,4 +1,5 @@
 mod adict;
+mod cli;
 mod connrec;
 mod image;
 mod parsecases;
@@ -56,6 +57,7 @@ fn main() {
         "record-mecab-lines" => trainer_cases::record_mecab_lines(&a),
         "record-train" => train::record(&a),
         "record-mecab" => trainer_cases::record_mecab(&a),
+        "cli-pipeline" => cli::pipeline(&a),
         "record-dict" => dictops::record(&a),
         "replay-dict" => dictops::replay(&a),
         _ => {
